@@ -312,7 +312,9 @@ public:
         if (!diff)
             return 0;
 
-        const auto diff_in_bit = (8 * sizeof(Int) - 1) - clz(diff);
+        // diff is promoted to int for key types narrower than int, and clz()
+        // counts leading zeros in the promoted type.
+        const auto diff_in_bit = (8 * sizeof(diff) - 1) - clz(diff);
 
         const auto row = diff_in_bit / radix_bits;
         const auto bucket_in_row = ((x >> (radix_bits * row)) & mask) - row;
